@@ -147,6 +147,7 @@ func runC14(r *Report, rng *rand.Rand, thorough bool) {
 		v                    variant
 		req                  labReq
 		n, short, sn, sshort int
+		warm                 int
 	}
 	metas := map[string]meta{}
 	for _, v := range vars {
@@ -183,7 +184,7 @@ func runC14(r *Report, rng *rand.Rand, thorough bool) {
 								scenarios = append(scenarios, map[string]any{"id": id, "pkg": v.name,
 									"opts": map[string]any{"middlewares": n, "short_circuit": short, "strict_middlewares": sn, "strict_short_circuit": sshort, "strict_with_options": wopts, "warmup": warm},
 									"req":  map[string]any{"method": rq.method, "target": rq.target, "header": rq.header, "body": rq.body}})
-								metas[id] = meta{v, rq, n, short, sn, sshort}
+								metas[id] = meta{v, rq, n, short, sn, sshort, warm}
 								if wopts {
 									r.Dist["constructor=NewStrictHandlerWithOptions"]++
 								}
@@ -201,6 +202,9 @@ func runC14(r *Report, rng *rand.Rand, thorough bool) {
 	}
 	cases := NewCases("cases_C14", "From V Require Import Model.Chain Corr.Eval.",
 		"flavour * bool * list mw * option (list mw) * list event", "mismatches_chain")
+	hcases := NewCases("cases_C14_history", "From V Require Import Model.Chain Corr.Eval.",
+		"flavour * bool * list mw * option (list mw) * nat * list event", "mismatches_chain_hist")
+	defer hcases.WriteTo(r)
 	for _, sc := range scenarios {
 		id := sc["id"].(string)
 		m := metas[id]
@@ -223,7 +227,11 @@ func runC14(r *Report, rng *rand.Rand, thorough bool) {
 		if m.v.strict {
 			strictTerm = "(Some " + coqMws(m.sn, m.sshort) + ")"
 		}
-		cases.Add(fmt.Sprintf("(%s, %v, %s, %s, %s)", coqFlavour[m.v.fw], m.v.ftl, coqMws(m.n, m.short), strictTerm, tr), replay)
+		if m.warm == 0 {
+			cases.Add(fmt.Sprintf("(%s, %v, %s, %s, %s)", coqFlavour[m.v.fw], m.v.ftl, coqMws(m.n, m.short), strictTerm, tr), replay)
+		} else {
+			hcases.Add(fmt.Sprintf("(%s, %v, %s, %s, %d, %s)", coqFlavour[m.v.fw], m.v.ftl, coqMws(m.n, m.short), strictTerm, m.warm, tr), replay)
+		}
 		r.Count(id, m.n+m.sn > 0)
 		r.Dist["fw="+m.v.fw]++
 		if len(r.Samples) < 3 && m.n == 2 && (m.sn == 1 || !m.v.strict) {
